@@ -13,7 +13,8 @@ source).  Results are rendered as `OK id|version;...` / `EXC <class>` in the
 same text form the Gallina model prints.
 
 Value encoding (objects and filter values): JSON, with {"$f": k} for the float
-k/1024 and {"$t": us} for an aware datetime (microseconds since the epoch).
+k/1024, {"$t": us} for an aware UTC datetime (microseconds since the epoch) and {"$tz": [us, minutes]}
+for the same instant as an aware datetime of the zone UTC+minutes.
 """
 import datetime as dt
 import hashlib
@@ -38,6 +39,8 @@ def dec(x):
             return x["$f"] / 1024.0
         if len(x) == 1 and "$t" in x:
             return EPOCH + dt.timedelta(microseconds=x["$t"])
+        if len(x) == 1 and "$tz" in x:      # the same instant, written as an aware datetime of another zone
+            return (EPOCH + dt.timedelta(microseconds=x["$tz"][0])).astimezone(dt.timezone(dt.timedelta(minutes=x["$tz"][1])))
         return {k: dec(v) for k, v in x.items()}
     if isinstance(x, list):
         return [dec(v) for v in x]
@@ -293,6 +296,30 @@ def run_grow(case, tmp):
     return steps
 
 
+def make_symlinks(root, side, spec):
+    """Replace entries of a FileSystemSink tree by symbolic links to the same content kept elsewhere:
+    spec = {"types": [type], "ids": [[type, id]], "files": [[type, id]]} (a STIX directory may well be assembled
+    from links; os.stat / open follow them).  Returns what was linked."""
+    done = []
+    os.makedirs(side, exist_ok=True)
+
+    def link(path, tag):
+        if not os.path.lexists(path) or os.path.islink(path):
+            return
+        keep = os.path.join(side, "%d-%s" % (len(done), os.path.basename(path)))
+        os.rename(path, keep)
+        os.symlink(keep, path)
+        done.append(tag)
+
+    for t, i in spec.get("files", []):
+        link(os.path.join(root, t, i + ".json"), ["file", t, i])
+    for t, i in spec.get("ids", []):
+        link(os.path.join(root, t, i), ["id", t, i])
+    for t in spec.get("types", []):
+        link(os.path.join(root, t), ["type", t])
+    return done
+
+
 def handle(case):
     dicts = [dec(o) for o in case["pop"]]
     k = case.get("split", 0)
@@ -310,6 +337,8 @@ def handle(case):
             os.mkdir(d2)
             res["build"]["fs_refused"] = fill_fs(d1, dicts)
             res["build"]["fs2_refused"] = fill_fs(d2, dicts[k:])
+            if case.get("symlinks"):
+                res["build"]["symlinked"] = make_symlinks(d1, os.path.join(tmp, "kept"), case["symlinks"])
             res["listing"] = {"all": listing(d1, dicts, 0), "part": listing(d2, dicts[k:], k)}
             fs = FileSystemSource(d1, allow_custom=True)
             ma = MemorySource(stix_data=[dict(d) for d in dicts[:k]], allow_custom=True) if dicts[:k] else MemorySource(allow_custom=True)
